@@ -1207,6 +1207,11 @@ func (c *cluster) summary() string {
 			fmt.Fprintf(&b, "  n%d DOWN  hs=(t%d v%d c%d) log=%s\n", n.id, n.hs.Term, n.hs.Vote, n.hs.Commit, descLog(n))
 			continue
 		}
+		if n.eff != nil && n.eff.panicVal != "" {
+			// the RawNode is unusable after a panic: show what it left in its storage
+			fmt.Fprintf(&b, "  n%d PANICKED  storage: hs=(t%d v%d c%d) applied(app)=%d log=%s\n", n.id, n.hs.Term, n.hs.Vote, n.hs.Commit, n.appliedIdx, descLog(n))
+			continue
+		}
 		fmt.Fprintf(&b, "  n%d %-12s t%d vote=%d lead=%d commit=%d applied=%d log=%s\n", n.id, n.status.RaftState, n.status.Term, n.status.Vote, n.status.Lead,
 			n.status.Commit, n.status.Applied, descLog(n))
 	}
